@@ -175,6 +175,51 @@ def api_oracle(ctx):
     return n
 
 
+def include_oracle(ctx):
+    """Markdown.read() with the include directive on small file trees: cycles, chains, missing / binary / oddly encoded files"""
+    import mistune, tempfile, shutil
+    from mistune.directives import FencedDirective, RSTDirective, Include, Admonition, TableOfContents
+    n = 0
+    tmp = tempfile.mkdtemp(prefix="verif-c01-")
+    try:
+        def w(name, data):
+            pth = os.path.join(tmp, name)
+            os.makedirs(os.path.dirname(pth), exist_ok=True)
+            with open(pth, "wb") as f:
+                f.write(data if isinstance(data, bytes) else data.encode("utf-8"))
+            return pth
+        for style in ("rst", "fenced"):
+            inc = (lambda f, opt="": ".. include:: %s\n%s\n" % (f, opt)) if style == "rst" else (lambda f, opt="": "```{include} %s\n%s```\n\n" % (f, opt.replace("   ", "")))
+            w("a.md", "# A\n\n" + inc("b.md"))
+            w("b.md", "para b\n\n" + inc("a.md"))                      # mutual inclusion
+            w("self.md", inc("self.md"))
+            w("self2.md", inc("./sub/../self2.md"))
+            w("sub/c.md", inc("../a.md"))
+            w("chain0.md", "end\n")
+            for i in range(1, 41):
+                w("chain%d.md" % i, "level %d\n\n" % i + inc("chain%d.md" % (i - 1)))
+            w("bin.md", bytes(range(256)))
+            w("bin.txt", b"\xff\xfe\x00bad")
+            w("latin.txt", "caf\xe9".encode("latin-1"))
+            w("ok.html", "<b>raw</b>")
+            w("top.md", "".join(inc(f) for f in ["missing.md", "bin.md", "bin.txt", "ok.html", "chain40.md", "sub/c.md"]) + inc("latin.txt", "   :encoding: latin-1\n") + inc("latin.txt", "   :encoding: nope\n") + inc("latin.txt"))
+            D = RSTDirective if style == "rst" else FencedDirective
+            for rend in ("html", None):
+                md = mistune.create_markdown(renderer=rend, plugins=[D([Include(), Admonition(), TableOfContents()])])
+                for f in ("a.md", "self.md", "self2.md", "sub/c.md", "chain40.md", "top.md"):
+                    n += 1
+                    try:
+                        md.read(os.path.join(tmp, f))
+                    except RecursionError as e:
+                        ctx.fail("crash:RecursionError@include:%s" % ("cycle" if f in ("a.md", "sub/c.md", "self2.md", "top.md") else f), "Markdown.read(%s) with the include directive (%s syntax) exhausts the recursion limit" % (f, style),
+                                 {"api": "read", "file": f, "style": style, "files": {"a.md": "# A\n\n" + inc("b.md"), "b.md": "para b\n\n" + inc("a.md")}})
+                    except Exception as e:
+                        ctx.fail("crash:%s@include:%s" % (type(e).__name__, f), "Markdown.read(%s) with the include directive (%s syntax) raises %r" % (f, style, e), {"api": "read", "file": f, "style": style})
+    finally:
+        shutil.rmtree(tmp, ignore_errors=True)
+    return n
+
+
 def table_wire(parser, flags):
     items = []
     for k, v in parser.specification.items():
@@ -284,6 +329,7 @@ def run(ctx):
     trace_correspondence(ctx, tdocs, tcfgs)
     n, n_ok = oracle(ctx, docs, cfgs)
     n += api_oracle(ctx)
+    n += include_oracle(ctx)
     if ctx.broken and not [f for f in ctx.failures if not ctx.is_known(f["signature"])]:
         ctx.notes.append("search mode entered: " + "; ".join(ctx.broken)[:300])
         n2, _ = oracle(ctx, documents(ctx, big=True), config_space(ctx, big=True), per_doc=3)
